@@ -228,6 +228,14 @@ fn ids_of(g: &ControlFlowGraph) -> Vec<usize> {
 }
 
 fn pick_block(rng: &mut Rng, ids: &[usize]) -> usize {
+    // an index that existed once and was removed (a gap left by merge) is the interesting
+    // kind of missing block: it is below the graph's next index
+    if let Some(max) = ids.last() {
+        let gaps: Vec<usize> = (0..*max).filter(|i| !ids.contains(i)).collect();
+        if !gaps.is_empty() && rng.chance(1, 8) {
+            return *rng.pick(&gaps);
+        }
+    }
     if ids.is_empty() || rng.chance(1, 20) {
         ids.last().map(|x| x + 1 + rng.below(3) as usize).unwrap_or(rng.below(3) as usize)
     } else {
